@@ -167,7 +167,7 @@ func runRedial(cfg *RunCfg) {
 			obs = append(obs, render(c, o))
 			distinct.Add(humanOf(c) + c.argMark)
 		}
-		w.Add(VL(append([]string{VS("seq")}, ins...)...), VL(obs...))
+		w.Add(VL(append([]string{VS("seq"), VL()}, ins...)...), VL(obs...))
 		if len(st.Samples) < 3 {
 			st.Samples = append(st.Samples, seqHuman)
 		}
